@@ -45,6 +45,7 @@ def configs(prop, tier, seed):
         if prop in ("C02", "C07"):
             plan.append(("F1", VARIANTS[(seed + 1) % len(VARIANTS)], 3, "exact"))
             plan.append(("F1", VARIANTS[(seed + 2) % 6], 2, "splitcarry"))
+            plan.append(("F2", VARIANTS[(seed + 1) % 6], 2, "exact"))  # coupon-paying securities inside a sub-strategy
             plan.append(("T3", VARIANTS[2 + seed % 3], 2, "exact"))
             plan.append(("MC", VARIANTS[(seed + 1) % 2], 3, "exact"))
             plan.append(("T1", VARIANTS[6], 3, "exact"))
